@@ -201,6 +201,29 @@ def pvm_tie(ctx, datas, oracle_answers):
                 what="Lean model of CPython's unpickler vs CPython (pickle._Unpickler)")
 
 
+def numeric_edge_dict_programs():
+    """Every ordered pair of numeric keys around the edges of int64 / uint64 / the 53-bit float mantissa, in every integer and float
+    form, as a two-entry dict built by DICT, SETITEM and SETITEMS: equal pairs must become one entry (last value wins), unequal
+    ones two - whichever form comes first."""
+    import struct as _struct
+    out = []
+
+    def fbits(x):
+        return P.BINFLOAT_bits(_struct.unpack(">Q", _struct.pack(">d", float(x)))[0])
+    edge = []
+    for n in (-2 ** 63, 2 ** 63, 2 ** 63 - 1, -2 ** 63 - 1, -(2 ** 53 + 1), 2 ** 53 + 1, 2 ** 53, -2 ** 53, 3 * 2 ** 62, 2 ** 64, 2 ** 64 - 2 ** 11,
+              2 ** 64 - 1, -(2 ** 62 + 1), 2 ** 100, 2 ** 1023):
+        edge += [P.LONG1(n), P.INT(n)]
+        if float(n) == n:
+            edge.append(fbits(n))
+    edge += [fbits(2.0 ** 63), fbits(-2.0 ** 63), fbits(2.0 ** 53), fbits(9007199254740993.0), fbits(-9007199254740993.0)]
+    edge = list(dict.fromkeys(edge))
+    for a in edge:
+        for b in edge:
+            out += [b"(" + a + b"K\x01" + b + b"K\x02d.", b"}" + a + b"K\x01s" + b + b"K\x02s.", b"}(" + a + b"K\x01" + b + b"K\x02u."]
+    return out
+
+
 def long_line_programs():
     """Text opcodes whose newline-terminated argument spans one, two, three and more 4 KiB reader buffers."""
     out = []
@@ -287,6 +310,7 @@ class C06:
     def run(self, ctx):
         rng = ctx.rng
         progs = own_corpus("C06") + sharing_programs() + long_line_programs() + short_programs(rng, ctx.scale(4, 5), sample=ctx.scale(0.25, 0.2))
+        progs += numeric_edge_dict_programs()
         nan = b"G\x7f\xf8\x00\x00\x00\x00\x00\x00"     # one NaN object used as a key twice (K6), and two NaN objects (no finding)
         progs += [b"}" + nan + b"q\x00K\x01sh\x00K\x02s.", b"(" + nan + b"q\x00K\x01h\x00K\x02d.", b"}" + nan + b"2K\x01sK\x02s.",
                   b"}" + nan + b"q\x00\x85K\x01sh\x00\x85K\x02s.", b"}" + nan + b"K\x01s" + nan + b"K\x02s."]
@@ -427,6 +451,7 @@ class C09:
                     b"".join(k + v + b"s" for k, v in zip(ks[h:], vals[h:])) + b"h\x00\x86."
             out.append(p)
         out += [p for p in sharing_programs() if p[:1] in (b"}", b"(") and b"d" in p[:3] or p[:1] == b"}"]
+        out += numeric_edge_dict_programs()
         # one NaN float OBJECT used as a key more than once (through the memo / DUP; bare, in one shared tuple, in two
         # tuples): CPython compares "identical or equal", so these collapse there — known finding K6
         nan = b"G\x7f\xf8\x00\x00\x00\x00\x00\x00"
